@@ -579,7 +579,7 @@ def build_obligations(binary):
     return obls
 
 
-TASK_PROPS = set("C01 C02 C05 C06 C07 C08".split())
+TASK_PROPS = set("C01 C02 C04 C05 C06 C07 C08".split())
 
 def tasks():
     return [("kernels2", "build_obligations", {})]
